@@ -204,7 +204,7 @@ def oracle(proj, root, impl, cli):
     # 2. exactly the reachable files (resolution order)
     got = {p for p in read_real if os.path.isfile(p)}
     if got != seen:
-        fails.append({"clause": "resolution relative to the including file, then -L libraries in order",
+        fails.append({"clause": "exactly the named files and the files reachable from them are read (resolution relative to the including file, then -L libraries in order)",
                       "detail": "files read %s, reachable per the rule %s" % (sorted(got), sorted(seen))})
     # 3. unresolved include -> error located at the include statement
     errs = []
